@@ -86,7 +86,8 @@ func (e *Env) present(act string, args J, emptyAsNil bool) J {
 			if emptyAsNil {
 				out[k], twin[k] = Oct(nil), Oct(nil)
 			} else {
-				out[k], twin[k] = Oct(make([]byte, 0)), Oct(make([]byte, 0))
+				// empty and not nil: a zero-length window into the caller's buffer (buf[n:n]) -- it has no octets but it has capacity
+				out[k], twin[k] = Oct(buf[off:off]), Oct(buf[total+off:total+off])
 			}
 			continue
 		}
